@@ -2166,7 +2166,9 @@ func (t *tScreen) disengage() {
 
 // Beep emits a beep to the terminal.
 func (t *tScreen) Beep() error {
+	t.Lock()
 	t.writeString(string(byte(7)))
+	t.Unlock()
 	return nil
 }
 
